@@ -132,6 +132,31 @@ def mk_short_axis(zero):
     return body
 
 
+def mk_history(first_axis, second_axis):
+    """the rotation is a function of its arguments: a rotation by theta about one axis (in particular one exactly along
+    -z, +z or a coordinate axis), followed by a rotation by the SAME theta about another axis, gives the Rodrigues
+    rotation for the second call too (nothing computed for the first call may leak into the second)"""
+    def body(ctx):
+        import propka.vector_algebra as V
+        theta, s, c = _theta(ctx, 0)
+        v1 = [ctx.real('u' + k_, -10, 10) for k_ in 'xyz']
+        V.rotate_vector_around_an_axis(theta, V.Vector(*[_num(ctx, q) for q in first_axis]), V.Vector(*v1))
+        ax, ay, az = (_num(ctx, q) for q in second_axis)
+        vx, vy, vz = [ctx.real('v' + k_, -10, 10) for k_ in 'xyz']
+        r = V.rotate_vector_around_an_axis(theta, V.Vector(ax, ay, az), V.Vector(vx, vy, vz))
+        n2 = ax * ax + ay * ay + az * az
+        n = math.sqrt(n2) if ctx.native else __import__('symx.core', fromlist=['ssqrt']).ssqrt(n2)
+        cr = (ay * vz - az * vy, az * vx - ax * vz, ax * vy - ay * vx)
+        dot = ax * vx + ay * vy + az * vz
+        want = [n2 * c * vi + n * s * ci + (1 - c) * dot * ai for vi, ci, ai in zip((vx, vy, vz), cr, (ax, ay, az))]
+        for nm, got, w in zip('xyz', (r.x, r.y, r.z), want):
+            if ctx.native:
+                ctx.claim(nm, abs(got - w / n2) <= 1e-9 * (1 + abs(vx) + abs(vy) + abs(vz)), detail='%r vs %r' % (got, w / n2))
+            else:
+                ctx.claim(nm, eq(n2 * got, w))
+    return body
+
+
 def mk_generic(axis, k=0):
     def body(ctx):
         ax, ay, az = (_num(ctx, v) for v in axis)
@@ -190,6 +215,11 @@ def obligations(tier):
                                      'angle any (sin,cos) on the unit circle; vector in [-10,10]^3' % zero,
                               claim_doc='|a|^2 * result = Rodrigues(theta, a, v) * |a|^2, per coordinate',
                               query_timeout_ms=30000, wall_s=200))
+    for fa, sa in ([((0, 0, -1), (2, 3, 6)), ((0, 0, -3), (0, 0, 1)), ((0, 0, 1), (0, 0, -2))] if tier == 'quick' else
+                   [((0, 0, -1), (2, 3, 6)), ((0, 0, -3), (0, 0, 1)), ((0, 0, 1), (0, 0, -2)), ((0, -1, 0), (8, 1, 4)), ((-1, 0, 0), (0, 2, 3)), ((2, 3, 6), (0, 0, -1)), ((0, 0, -1), (0, 0, -1))]):
+        obs.append(Obligation('O3-history[%s then %s]' % (fa, sa), mk_history(fa, sa), code=code,
+                              bounds='two calls with the same symbolic angle: first about %r, then about %r; vectors in [-10,10]^3' % (fa, sa),
+                              claim_doc='the second call is the Rodrigues rotation (no state survives the first call)', query_timeout_ms=60000, wall_s=240))
     for zero in 'xyz':
         obs.append(Obligation('O1-short-axis-%s-zero' % zero, mk_short_axis(zero), code=code,
                               bounds='axis component %s = 0, the other two in [-2^-30, 2^-30] not both 0; angle any; vector components 0 or of magnitude in [0.5, 10]' % zero,
